@@ -20,7 +20,8 @@ RULE = (
     "invariants: one quantity type per symbol, identity base first once a base was registered, category type exists, "
     "default/valid units within the type, default value within limits, Scalar(category) builds and IsValid(), "
     "Scalar(1,u,c) builds for every unit and category of its type and holds the category as registered now, as does the "
-    "unit-only form ObtainQuantity(u); a rejected call leaves the full snapshot identical. "
+    "unit-only form ObtainQuantity(u), CheckCategoryUnit of every (category name, unit symbol) of the pools - registered "
+    "or not yet - agrees with the model after every step; a rejected call leaves the full snapshot identical. "
     "(c) static sweep of the three shipped databases with the same invariants. Non-trivial = history with a rejection, "
     "an override or a unit registered before its base; key = the history."
 )
@@ -64,6 +65,10 @@ OPS = [
     ["cat", "bad4", {"quantity_type": "L", "min_value": 2.0, "default_value": 1.0}],
     ["cat", "bad5", {"quantity_type": "L", "from_category": "depth"}],
 ]
+
+
+POOL_CATEGORIES = ["L", "T", "depth", "x", "moles", "y", "M"]
+POOL_UNITS = ["m", "cm", "km", "s", "min", "lbmol", "kg"]
 
 
 def plan(tier, seed):
@@ -261,6 +266,18 @@ def observe(db, m):
         want = ("ok", dc, ui["qt"], True) if m.cats[dc]["qt"] == ui["qt"] else ("raises",)
         if got != want:
             return ("INV unit-only quantity does not reflect the registered category", u, got, want)
+    # every (category name, unit symbol) of the pools is looked up after every step - also names that are not (yet)
+    # registered: the verdict is the model's, whatever was asked (and refused) before
+    for c in POOL_CATEGORIES:
+        for u in POOL_UNITS:
+            try:
+                db.CheckCategoryUnit(c, u)
+                got = True
+            except UnitsError:
+                got = False
+            want = c in m.cats and m.cats[c]["qt"] in m.qt and u in m.qt[m.cats[c]["qt"]]
+            if got != want:
+                return ("INV CheckCategoryUnit disagrees with the registrations", c, u, got, want)
     if list(db.IterCategories()) != list(m.cats):
         return ("categories", list(db.IterCategories()), list(m.cats))
     for c, ci in m.cats.items():
